@@ -19,7 +19,8 @@ import torch
 
 from .. import gen
 from ..monitors import (CTL, FailForward, FailBackward, ModelAudit,
-	LineFailpoints, cleanup_lines, unraisable_lines, Injected, EXC_TYPES)
+	LineFailpoints, cleanup_lines, unraisable_lines, with_lines, Injected,
+	EXC_TYPES)
 
 ID = "C07"
 LEVEL = "fault_enumeration"
@@ -282,6 +283,7 @@ def fresh(kind, seed=0):
 
 
 def run_case(cls, params, rec):
+	torch.set_grad_enabled(True)
 	t = params["type"]
 	if t == "event":
 		return case_event(cls, params, rec)
@@ -387,7 +389,7 @@ def enumerate_line_points(opname, modelkind):
 	ops = build_ops()
 	op, entry = ops[opname]
 	first = entry.__code__.co_firstlineno
-	skip = cleanup_lines(entry) | unraisable_lines(entry)
+	skip = cleanup_lines(entry) | unraisable_lines(entry) | with_lines(entry)
 	model = fresh(modelkind)
 	CTL.reset()
 	lf = LineFailpoints(entry)
@@ -514,8 +516,14 @@ def plan(tier, seed):
 	else:
 		hs = [list(h) for n in (1, 2, 3) for h in itertools.product(HIST_OPS,
 			repeat=n)]
+		# all histories of length 4 over a core alphabet (the failing calls
+		# and one representative of each entry-point family)
+		core = ["predict", "dls", "FAIL_N", "FAIL_fwd2_kbd", "ism",
+			"marginalize_dls", "FAIL_bwd1", "greedy"]
+		hs += [list(h) for h in itertools.product(core, repeat=4)]
 		r = gen.pyrng("C07hist", seed)
-		hs += [[r.choice(HIST_OPS) for _ in range(4)] for _ in range(1500)]
+		hs += [[r.choice(HIST_OPS) for _ in range(r.choice([4, 5, 6]))]
+			for _ in range(3000)]
 	per = 12 if quick else 40
 	for i in range(0, len(hs), per):
 		units.append({"cls": "histories", "hs": hs[i:i + per],
